@@ -421,6 +421,80 @@ fn fault_case(seed: u64, fail_pack: usize) -> String {
     out
 }
 
+/// Directed scenario "healing run with skip_if_unchanged" (line `heal <seed>`): backup, add a file,
+/// backup, remove the FIRST index file, backup with skip_if_unchanged (the parent's root tree is
+/// still loadable, the chunks the lost index file described are stored again, the tree equals the
+/// parent's, no snapshot is written), reload the index, back up the unchanged source again.
+/// Prints only counters: `ok | HEAL key=val ..`.
+fn heal_case(seed: u64) -> String {
+    use rustic_core::WriteBackend as _;
+    let run = || -> anyhow::Result<String> {
+        let mut r = SplitMix(seed);
+        let src = tempfile::tempdir()?;
+        let root = src.path().to_path_buf();
+        write_file(&root.join("a.bin"), &rnd(r.next(), 150_000 + r.below(200_000) as usize));
+        write_file(&root.join("sub/b.bin"), &rnd(r.next(), 100_000 + r.below(200_000) as usize));
+        let store = mem();
+        let key = MasterKey::new();
+        let cfg = ConfigOptions::default()
+            .set_chunk_size(bytesize::ByteSize(8192))
+            .set_chunk_min_size(bytesize::ByteSize(4096))
+            .set_chunk_max_size(bytesize::ByteSize(65536));
+        let mut config = rustic_core::repofile::ConfigFile::default();
+        config.version = 2;
+        config.chunker_polynomial = format!("{:x}", POLYS[(seed % POLYS.len() as u64) as usize]);
+        cfg.apply(&mut config)?;
+        let bes = rustic_core::RepositoryBackends::new(store.clone(), None);
+        let _ = rustic_core::Repository::new(&repo_opts(), &bes)?
+            .init_with_config(&rustic_core::Credentials::Masterkey(key.clone()), &rustic_core::KeyOptions::default(), config)?;
+        let opts = || BackupOptions::default().parent_opts(ParentOptions::default().skip_if_unchanged(true));
+        let backup = || -> anyhow::Result<rustic_core::repofile::SnapshotFile> {
+            let repo = open_repo(store.clone(), None, &key, &repo_opts())?;
+            Ok(backup_dir(repo, &root, "src", Some(opts()))?.1)
+        };
+        let packs_of_index = || -> anyhow::Result<BTreeMap<String, Vec<String>>> {
+            let repo = open_repo(store.clone(), None, &key, &repo_opts())?;
+            let mut m = BTreeMap::new();
+            for r in repo.stream_files::<IndexFile>()? {
+                let (id, f) = r?;
+                let _ = m.insert(id.to_hex().to_string(), f.packs.iter().map(|p| p.id.to_hex().to_string()).collect());
+            }
+            Ok(m)
+        };
+        // 1. two backups, the second adds a file
+        let s1 = backup()?;
+        let first: Vec<_> = store.list(FileType::Index)?;
+        write_file(&root.join("sub/c.bin"), &rnd(r.next(), 100_000 + r.below(200_000) as usize));
+        let s2 = backup()?;
+        let nindex2 = store.list(FileType::Index)?.len();
+        // 2. the first index file gets lost
+        let before = packs_of_index()?;
+        let lost: Vec<String> = first.first().and_then(|i| before.get(i.to_hex().as_str()).cloned()).unwrap_or_default();
+        if let Some(i) = first.first() {
+            store.remove(FileType::Index, i, false)?;
+        }
+        // 3. healing backup with skip_if_unchanged
+        let s3 = backup()?;
+        let sm3 = s3.summary.clone().unwrap_or_default();
+        let listed3: Vec<String> = store.list(FileType::Pack)?.iter().map(|i| i.to_hex().to_string()).collect();
+        let indexed3: std::collections::BTreeSet<String> = packs_of_index()?.values().flatten().cloned().collect();
+        let unindexed3 = listed3.iter().filter(|p| !indexed3.contains(*p)).count();
+        let unindexed3_not_lost = listed3.iter().filter(|p| !indexed3.contains(*p) && !lost.contains(*p)).count();
+        let snaps3 = store.list(FileType::Snapshot)?.len();
+        // 4. index reloaded, nothing changed
+        let s4 = backup()?;
+        let sm4 = s4.summary.clone().unwrap_or_default();
+        let listed4 = store.list(FileType::Pack)?.len();
+        let clean = open_repo(store.clone(), None, &key, &repo_opts()).ok().and_then(|r| check_clean(&r).ok()).unwrap_or(false);
+        Ok(format!(
+            "ok | HEAL index_files_after_1={} index_files_after_2={nindex2} lost_packs={} tree12_differ={} tree3_eq_tree2={} tree4_eq_tree2={} heal_data_blobs={} heal_tree_blobs={} snapshots_after_3={snaps3} packs_after_3={} unindexed_after_3={unindexed3} unindexed_after_3_not_lost={unindexed3_not_lost} last_data_blobs={} last_tree_blobs={} last_data_added={} packs_after_4={listed4} clean={}",
+            first.len(), lost.len(), u8::from(s1.tree != s2.tree), u8::from(s3.tree == s2.tree), u8::from(s4.tree == s2.tree),
+            sm3.data_blobs, sm3.tree_blobs, listed3.len(), sm4.data_blobs, sm4.tree_blobs, sm4.data_added, u8::from(clean)
+        ))
+    };
+    run().unwrap_or_else(|e| format!("err heal {}", e.to_string().replace('\n', " ")))
+}
+
 /// irreducible polynomials of degree 53 (restic's documented example + polynomials drawn by `init`)
 const POLYS: [u64; 6] = [
     0x3DA3358B4DC173, 0x2e275b928699d1, 0x34110dbce30fa7, 0x252ad901f21e1b, 0x2b6a4ad79585f7, 0x33fd4c16e1a84f,
@@ -433,6 +507,9 @@ fn case(line: &str) -> String {
             Ok((repo, _)) => repo.config().chunker_polynomial.clone(),
             Err(e) => format!("err {e}"),
         };
+    }
+    if let Some(rest) = line.trim().strip_prefix("heal") {
+        return heal_case(Toks::new(rest).u());
     }
     if let Some(rest) = line.trim().strip_prefix("fault") {
         let mut t = Toks::new(rest);
